@@ -64,12 +64,14 @@ def plan(ctx):
     L = 3
     return [
         ('shard_enum', [('tok', 'A_TOK', L, i, 48) for i in range(48)] +
+                       [('envname', 'A_ENV', 3, i, 8) for i in range(8)] +
                        [('cat', 'A_CAT', ctx.pick(3, 4), i, 32) for i in range(32)] +
                        ([('tokcore', 'A_TOK_CORE', 4, i, 96) for i in range(96)] if ctx.thorough else [])),
         ('shard_random', [('rnd', ctx.pick(1500, 40000), i) for i in range(16)]),
         ('shard_mutations', [('mut', ctx.pick(4, 40), i) for i in range(16)]),
         ('shard_spaced', [('spaced', ctx.pick(400, 10000), i) for i in range(16)]),
         ('shard_runs', [('runs', i, 8) for i in range(8)]),
+        ('shard_shrinking', [('shrink', i, 16) for i in range(16)]),
     ]
 
 
@@ -118,6 +120,47 @@ def shard_runs(ctx, shard):
                         continue
                     res.case(s, True, sample=s, classes=['runs:%d-groups' % n])
     res.exhaustive['heads x 0..12 groups x separators x followers (this run)'] = count
+    return res
+
+
+def shrinking_documents():
+    """Group bodies whose serialisation is SHORTER than their source (blanks before inner argument groups are dropped),
+    at every size in a range: a decision taken from a distance / token count across such a body may flip on re-parsing."""
+    for n in list(range(1, 40, 3)) + list(range(40, 140)) + list(range(140, 700, 7)) + [1000, 1400, 2100, 4200]:
+        inner = '\\x {a}' * n
+        yield '\\note[' + inner + ']{text}', 'bracket-body', n
+        if n % 2:
+            yield '\\note{k}[' + inner + '] t', 'late-bracket-body', n
+            yield '\\begin{e}[' + inner + ']{k} b\\end{e}', 'env-bracket-body', n
+            yield 'a {' + '\\x \n{a}' * n + '} b', 'brace-body', n
+    for k in range(60, 140):
+        yield '\\cite{key}[' + 'w' * k + '\\emph {a}] tail', 'late-bracket-chars', k
+        yield '\\cite[' + 'w' * k + '\\emph {a} \\emph  {b}]{key} tail', 'bracket-chars', k
+    for k in (250, 251, 252, 253, 254, 255, 256, 257, 258, 509, 510, 511, 512, 513, 1021, 1022, 1023, 1024, 1025):
+        yield '\\cite{key}[' + 'w' * k + '\\emph {a}] tail', 'late-bracket-chars', k
+        yield '\\cite[' + 'w' * k + '\\emph  {a}]{key} tail', 'bracket-chars', k
+
+
+def shard_shrinking(ctx, shard):
+    _, idx, nshard = shard
+    H.import_repo()
+    res = H.Result()
+    seen = set()
+    for k, (s, kind, n) in enumerate(shrinking_documents()):
+        if k % nshard != idx:
+            continue
+        try:
+            judged, nt, labels = check_string(s, 'shrinking-body')
+        except H.Violation as v:
+            if v.kind not in seen:
+                seen.add(v.kind)
+                res.violations.append(v.record())
+            continue
+        if not judged:
+            for l in labels:
+                res.excluded[l] += 1
+            continue
+        res.case(s, True, sample={'kind': kind, 'size': n, 'src': s[:80] + '...'}, classes=['shrinking:' + kind])
     return res
 
 
